@@ -987,7 +987,7 @@ func c05Regions(o c05Opts, f *syntax.File) []string {
 		}
 		return cmdEndsBare(s.Cmd)
 	}
-	anyHdoc := false
+	anyHdoc, anyBare, anyYComs := false, false, false
 	syntax.Walk(f, func(n syntax.Node) bool {
 		if r, ok := n.(*syntax.Redirect); ok && (r.Op == syntax.Hdoc || r.Op == syntax.DashHdoc) {
 			anyHdoc = true
@@ -1002,6 +1002,9 @@ func c05Regions(o c05Opts, f *syntax.File) []string {
 				set("heredoc-then-test-clause")
 			}
 		case *syntax.BinaryCmd:
+			if len(n.Y.Comments) > 0 {
+				anyYComs = true
+			}
 			if o.single && len(n.Y.Comments) > 0 && !n.Y.Comments[0].Pos().After(n.Y.Pos()) &&
 				len(c05CommentsOf(reflect.ValueOf(n.Y))) > len(n.Y.Comments) {
 				// printed on one line, Y.Comments is queued after Y: behind the comments inside Y
@@ -1009,6 +1012,7 @@ func c05Regions(o c05Opts, f *syntax.File) []string {
 			}
 		case *syntax.Stmt:
 			if n.Cmd != nil && cmdEndsBare(n.Cmd) {
+				anyBare = true
 				for _, c := range n.Comments {
 					if c.End().After(n.Cmd.End()) {
 						set("comment-after-bare-time-coproc")
@@ -1052,6 +1056,10 @@ func c05Regions(o c05Opts, f *syntax.File) []string {
 		}
 		return true
 	})
+	if o.single && anyBare && anyYComs {
+		// SingleLine queues Y.Comments after Y; they may be flushed right after a bare coproc/time
+		set("comment-after-bare-time-coproc")
+	}
 	return reasons
 }
 
